@@ -8,6 +8,11 @@ token is "some other string".
 * `create <sm> <MAX_DEPTH> <depth>` → `ok <depth of the workers>` | `LokyRecursionError fork|max`
 * `env <absent|bad|int>`            → the value of `MAX_DEPTH`, or `ValueError`
 * `nest <MAX_DEPTH> <depth> <sm,sm,...|->` → `<depth reached> ok|LokyRecursionError fork|max`
+* `life <sm> <MAX_DEPTH> <depth at construction> <workers> <op,op,...|->` with `op` = `d<n>` (the process
+  assigns its depth global), `e` (first submit), `r<n>` (resize to n), `x<n>` (n workers time out, respawn)
+  → `ok <batch>;<batch>;...` (one batch per op: the depth arguments of the workers it spawns, `-` = none)
+  | `LokyRecursionError fork|max`
+* `startup <fresh> <arg>` → `<depth global while the initializer runs> <while tasks run>`
 -/
 open LokyModel.Depth
 
@@ -18,6 +23,19 @@ def parseSm (s : String) : StartMethod :=
 def showReason : Reason → String
   | .fork => "LokyRecursionError fork"
   | .maxDepth => "LokyRecursionError max"
+
+def parseLifeOp (t : String) : Option LifeOp :=
+  if t == "e" then some .ensure
+  else
+    let rest := (t.drop 1).toString
+    match (t.take 1).toString, rest.toNat? with
+    | "d", some n => some (.setDepth n)
+    | "r", some n => some (.resize n)
+    | "x", some n => some (.exit n)
+    | _, _ => none
+
+def showBatch (b : List Nat) : String :=
+  if b.isEmpty then "-" else ",".intercalate (b.map toString)
 
 def handle (ws : List String) : String :=
   match ws with
@@ -51,6 +69,21 @@ def handle (ws : List String) : String :=
       match nest mx d l with
       | (d', none) => s!"{d'} ok"
       | (d', some why) => s!"{d'} {showReason why}"
+    | _, _ => "bad-op"
+  | ["life", sm, mx, d, w, ops] =>
+    match mx.toInt?, d.toNat?, w.toNat? with
+    | some mx, some d, some w =>
+      let toks := if ops == "-" then [] else ops.splitOn ","
+      let parsed := toks.map parseLifeOp
+      if parsed.any Option.isNone then "bad-op"
+      else
+        match life (parseSm sm) mx d w (parsed.filterMap id) with
+        | .ok bs => "ok " ++ (if bs.isEmpty then "." else ";".intercalate (bs.map showBatch))
+        | .error why => showReason why
+    | _, _, _ => "bad-op"
+  | ["startup", f, a] =>
+    match f.toNat?, a.toNat? with
+    | some f, some a => let r := workerStartup f a; s!"{r.1} {r.2}"
     | _, _ => "bad-op"
   | _ => "bad-op"
 
